@@ -14,7 +14,8 @@ Engine E2.  Three parts:
  (b)    the real stage pipeline under the driver on a real world: must not raise, lines equal the sequential loop.
 
 Further dimensions of (a):
- * the batch context: turn id 6 / 1 / 0 (the first turn of a run - a falsy id), slice index 0 / 2, optional context fields
+ * the batch context: turn id 6 / 1 / 0 (the first turn of a run - a falsy id) and the id's FORM (int, numeric string, non-numeric
+   string - TurnCtx.turn_id is declared str and the scenario runner uses "demo-1"), slice index 0 / 2, optional context fields
    (now_ms, slice_idx, seed) present, falsy or absent; the compute stand-in echoes every context field it can see into its
    result line and stamps the turn id into every record;
  * the state container: a plain dict (reads go through the live dict's bound `get`) or an attribute-style object (the layout
@@ -77,6 +78,18 @@ CTXS = {
     "bare0": {"turn_id": 0},                                          # optional fields absent rather than zero
     "bare6": {"turn_id": 6, "seed": 11},
 }
+# the FORM of the turn id.  The declared type of TurnCtx.turn_id is str (world/scenario.py runs turn "demo-1", the orchestrator's
+# own demo runs turn "1"); run_turn only echoes the id into its records, Apply documents int(id) with a fallback to turn 0, and
+# the batch driver documents a string fallback for ids that are not numbers.  So the id of a batch may be an int, a numeric
+# string or a non-numeric string, and the sequential loop handles all of them.
+CTXS.update({
+    "sid": {"turn_id": "demo-1", "slice_idx": 0, "now_ms": W.NOW_MS},      # non-numeric: a snapshot turn under every cadence
+    "s13": {"turn_id": "13", "slice_idx": 0, "now_ms": W.NOW_MS},          # numeric string; not a snapshot turn at cadence 4
+    "s0": {"turn_id": "0"},                                                # numeric string, int value falsy, the string truthy
+    "spad": {"turn_id": "t-0007", "slice_idx": 2, "now_ms": 0, "seed": 0},  # digits inside a non-numeric id
+})
+CTX_INT = ("t0", "t1s2", "bare0", "bare6")
+CTX_STR = ("sid", "s13", "s0", "spad")
 CTX_ECHO = ("turn_id", "slice_idx", "now_ms", "seed")
 
 # insertion orders of the static registry (index into the permutations of GRAPHS; 0 = sorted = control)
@@ -531,15 +544,15 @@ def cases(thorough):
     for c in out:
         if len(c["agents"]) > 2 or c["shape"] not in (("std", "multi", "none") if thorough else ("std",)):
             continue
-        for cx in ("t0", "t1s2", "bare0", "bare6"):
+        for cx in CTX_INT + CTX_STR:
             d = dict(c)
             d["ctx"] = cx
             if not thorough:
                 d["lim"] = "ends"
             extra.append(d)
-            if thorough and c["shape"] == "std" and cx in ("t0", "t1s2"):
+            if thorough and c["shape"] == "std" and cx in ("t0", "t1s2", "sid", "s13"):
                 d = dict(d)
-                d["cadence"] = 4          # turn 0 is a snapshot turn under every cadence, turn 1 is not
+                d["cadence"] = 4          # turn 0 (and an id that is no number) is a snapshot turn under every cadence, 1 / "13" are not
                 extra.append(d)
     # --- turns without a T4 outcome: the kill switch (whole batch) and single agents that yield before T4
     for c in out:
@@ -590,7 +603,8 @@ def run(run: Run) -> None:
                 "worker limits x %d payload shapes (0-5 records, streams incl. unknown names, sizes 1B/200B/70KiB) x every staging limit class "
                 "(1, each record estimate and each prefix sum -1/+0/+1, 32MiB), each compared with the driver's disabled-path loop over the "
                 "picked tasks; plus, for 1..2 agents, batch contexts {turn 6, turn 0, turn 1 + slice 2 + now_ms 0 + seed 0, optional "
-                "fields absent} (stand-in echoes the context it is handed), and, for 1..%d agents, state container {dict, attribute "
+                "fields absent; turn id as a string: non-numeric 'demo-1', numeric '13', '0', 't-0007' + slice 2} (stand-in echoes "
+                "the context it is handed and stamps the id into every record), and, for 1..%d agents, state container {dict, attribute "
                 "object} x graph naming x registry insertion order (%d of the 6 permutations of the graph ids; nested mappings, int "
                 "keys, falsy values) with a stand-in that records what it reads from the state (iteration order, lengths, values), "
                 "focuses on its first graph in registry order and proposes one delta per owned graph in that order%s; "
@@ -604,7 +618,8 @@ def run(run: Run) -> None:
     run.assume("the driver computes the picked agents in a plain loop (no threads today): 'order in which compute phases finish' has one value")
     run.assume("compute stand-in follows the dry-run contract, reads only its own agent's target plus entries of the state that no "
                "turn of the batch writes (registry, agent maps), uses the batch turn id and slice index")
-    run.assume("the batch context carries an integer turn id (0 included); a context without turn id is not judged (the two paths "
+    run.assume("the batch context carries an integer turn id (0 included) or a string turn id (the declared type of "
+               "TurnCtx.turn_id; numeric or not, non-empty); a context without turn id is not judged (the two paths "
                "document different defaults); registry values are mappings, lists, tuples and scalars (no namespaces: the "
                "snapshot view documents their conversion); the view may wrap containers, so only iteration order, length, "
                "lookup and scalar values are compared, not container types")
